@@ -60,7 +60,7 @@ func hostileName(r *core.Rng) string {
 	case 0:
 		return ""
 	case 1:
-		return core.Pick(r, []string{"existing", "existing.gr", "newfile", "new_file_2.gr", "A9_", ".gr", "x"})
+		return core.Pick(r, []string{"existing", "existing.gr", "newfile", "new_file_2.gr", "A9_", ".gr", "x", "outside", "decoy", "decoy.gr"})
 	case 2:
 		return core.Pick(r, []string{"../outside", "../outside.gr", "../sibling/decoy.gr", "sub/x", "sub/x.gr", "./existing.gr", "secret", "x.gr.bak", "x.gr.gr", "/etc/passwd", "~/x.gr", "..", "../.gr", "a/../b.gr", "existing.gr\x00.txt", "existing\x00", " existing", "existing ", "a.b.gr", ".gr.gr", "gr", "..gr",
 			"š", "š.gr", "aŁ_1", "ş", "а1.gr", "ａ", "é_é", "日本.gr", "dir1", "dir1.gr"})
@@ -80,6 +80,10 @@ func (c17) Generate(r *core.Rng, run int, tier string) *core.History {
 	h := &core.History{Cfg: map[string]int64{"maxdepth": 1000}, Flags: map[string]bool{}, Strs: map[string]string{}}
 	cfg := c17Configs[run%len(c17Configs)]
 	h.Strs["config"] = cfg
+	// the session evaluates "a script run by path" in part of the runs (State.CurrentFile as main.go sets it in file mode,
+	// pointing into the parent or a sibling directory, where decoys with acceptable names live): where the script
+	// comes from must not widen what restricted load/save reach
+	h.Strs["script"] = core.Pick(r, []string{"", "", "<stdin>", "../script.gr", "../sibling/main.gr", "sub/tool.gr"})
 	n := 6 + r.Intn(20)
 	var used []string
 	for i := 0; i < n; i++ {
@@ -220,6 +224,7 @@ func c17Worker(args []string) int {
 	}
 	world.Install(ec)
 	s := world.NewSession(world.SessCfg{MaxDepth: 1000})
+	s.St.CurrentFile = h.Strs["script"]
 	res := &c17Result{}
 	decisions := map[string]string{}
 	obstacles := map[string]bool{}
